@@ -29,6 +29,7 @@ fn main() {
 		"client_send_failure_reports_cause" => probes::client_send_failure_reports_cause(),
 		"params_sequence_agrees_with_parse" => probes::params_sequence_agrees_with_parse(),
 		"host_filter_gate" => probes::host_filter_gate(),
+		"subscription_bookkeeping" => probes::subscription_bookkeeping(),
 		_ => json!({"probe": name, "error": "unknown probe"}),
 	};
 	println!("{}", res);
